@@ -1058,12 +1058,21 @@ func (fv *FuncVerifier) execSwitch(s *ast.SwitchStmt, st *State) *State {
 
 func (fv *FuncVerifier) execReturn(s *ast.ReturnStmt, st *State) {
 	fr := fv.frame()
+	if _, ok := fv.spec.Pragmas["returned_closure"]; ok && fr.top && len(s.Results) == 1 && fv.specMode == 0 {
+		if lit, isLit := ast.Unparen(s.Results[0]).(*ast.FuncLit); isLit {
+			fv.runReturnedClosure(s, lit, st)
+		}
+	}
 	if len(s.Results) > 0 {
 		var vals []Term
 		if len(s.Results) == 1 && len(fr.results) > 1 {
 			vals = fv.evalMulti(s.Results[0], st)
 		} else {
 			for i, r := range s.Results {
+				if _, isLit := ast.Unparen(r).(*ast.FuncLit); isLit {
+					vals = append(vals, Term{}) // a function value: not modelled (see pragma returned_closure)
+					continue
+				}
 				vals = append(vals, fv.evalTo(r, fr.results[i].Type(), st))
 			}
 		}
@@ -1744,19 +1753,10 @@ func (fv *FuncVerifier) unrollRange(s *ast.RangeStmt, st *State, coll Term, n in
 
 // checkAssertsBefore: contract assertions anchored at this statement.
 func (fv *FuncVerifier) checkAssertsBefore(s ast.Stmt, st *State, after bool) {
-	if fv.anchorStmts == nil {
-		fv.anchorStmts = map[ast.Stmt][]int{}
-		for i, ab := range fv.spec.AssertsBefore {
-			if a := findAnchorStmt(fv.prog.fset, fv.fd.decl, ab.Anchor); a != nil {
-				fv.anchorStmts[a] = append(fv.anchorStmts[a], i)
-			} else {
-				reject("assert_before anchor %q not found in %s", ab.Anchor, fv.name)
-			}
-		}
-	}
+	fv.checkAssertsInit()
 	for _, i := range fv.anchorStmts[s] {
 		ab := fv.spec.AssertsBefore[i]
-		if ab.After != after {
+		if ab.After != after || ab.ClosureReq {
 			continue
 		}
 		saved := fv.clauseCtx
@@ -1771,8 +1771,12 @@ func (fv *FuncVerifier) checkAssertsBefore(s ast.Stmt, st *State, after bool) {
 		if after {
 			when = "after"
 		}
-		fv.oblige(st, "assert", fmt.Sprint(i), t, s.Pos(), when+" `"+ab.Anchor+"`: "+ab.Clause.Text)
-		if after {
+		kind := "assert"
+		if ab.Hint {
+			kind = "hint"
+		}
+		fv.oblige(st, kind, fmt.Sprint(i), t, s.Pos(), when+" `"+ab.Anchor+"`: "+ab.Clause.Text)
+		if ab.Hint {
 			st.assume(t) // proved just above: available to the rest of the path (a proof hint)
 		}
 	}
@@ -1960,4 +1964,47 @@ func (fv *FuncVerifier) callYield(yc *yieldCtx, args []Term, st *State) []Term {
 	r := st.vars[res]
 	delete(st.vars, res)
 	return []Term{r}
+}
+
+// runReturnedClosure (pragma returned_closure): the function literal being returned is executed
+// as it will be later: captured variables keep their values, every heap (and ghost state) is
+// arbitrary except for what the closure_requires clauses say, and old() inside assertions anchored
+// in the closure refers to the state at the closure's entry.
+func (fv *FuncVerifier) runReturnedClosure(s *ast.ReturnStmt, lit *ast.FuncLit, st *State) {
+	cs := st.clone()
+	fv.havocAllHeaps(cs)
+	fv.checkAssertsInit()
+	for _, ab := range fv.spec.AssertsBefore {
+		if !ab.ClosureReq {
+			continue
+		}
+		savedE := fv.entry
+		fv.entry = cs
+		t := fv.evalClauseHere(ab.Clause, cs, s.Pos())
+		fv.entry = savedE
+		cs.assume(t)
+	}
+	fv.cover(cs, "closure-entry", boolT(true), "closure_requires are satisfiable")
+	savedEntry := fv.entry
+	fv.entry = cs.clone()
+	fv.u.note("returned closure executed from an arbitrary heap constrained only by closure_requires (assumed at its call sites, not checked there)")
+	fv.runClosureBody(lit, fv.frame(), nil, cs)
+	fv.entry = savedEntry
+}
+
+func (fv *FuncVerifier) checkAssertsInit() {
+	if fv.anchorStmts != nil {
+		return
+	}
+	fv.anchorStmts = map[ast.Stmt][]int{}
+	for i, ab := range fv.spec.AssertsBefore {
+		if ab.ClosureReq {
+			continue
+		}
+		if a := findAnchorStmt(fv.prog.fset, fv.fd.decl, ab.Anchor); a != nil {
+			fv.anchorStmts[a] = append(fv.anchorStmts[a], i)
+		} else {
+			reject("assert anchor %q not found in %s", ab.Anchor, fv.name)
+		}
+	}
 }
